@@ -17,6 +17,7 @@ TRANSFORMS = [
     "X5 derive lists of extracted structs/enums are reduced to the traits Verus understands (PartialEq, Eq, Clone, Copy); default type parameters (`= f64`) are dropped",
     "X6 ghost text from the unit template is spliced in: named return, requires/ensures/decreases, loop invariants, ghost iterator names, proof blocks",
     "X7 `impl Trait` in argument position is kept; visibility qualifiers pub(crate)/pub(super) are rewritten to pub",
+    "X9 assert_eq!(a, b) / debug_assert_eq!(a, b) -> assert!((a) == (b)) / debug_assert!((a) == (b)) (same panic condition; the formatted message, which needs Debug, is dropped)",
     "X8 where Verus forbids `requires` on an impl of a std trait (Iterator::next), the extracted method body is checked as an impl of a local trait of the same shape declared in the unit (c10_earcut_glue: IteratorWithInvariant)",
 ]
 
@@ -213,6 +214,29 @@ def transform_code(text):
                     out.append('Coord {' + transform_code(inner) + '}')
                     k = c + 1
                     continue
+        if t[0] == 'ident' and t[1] in ('assert_eq', 'debug_assert_eq'):
+            j = next_sig(k + 1)
+            if j < n and toks[j][1] == '!':
+                o = next_sig(j + 1)
+                if o < n and toks[o][1] in OPEN:
+                    c = match_close(toks, o)
+                    # split the arguments at top-level commas
+                    args, cur, m = [], [], o + 1
+                    while m < c:
+                        tt = toks[m]
+                        if tt[0] == 'punct' and tt[1] in OPEN:
+                            e2 = match_close(toks, m)
+                            cur.append(''.join(x[1] for x in toks[m:e2 + 1])); m = e2 + 1; continue
+                        if tt[1] == ',':
+                            args.append(''.join(cur)); cur = []
+                        else:
+                            cur.append(tt[1])
+                        m += 1
+                    if ''.join(cur).strip(): args.append(''.join(cur))
+                    if len(args) >= 2:
+                        out.append('%s!((%s) == (%s))' % (t[1][:-3], transform_code(args[0].strip()), transform_code(args[1].strip())))
+                        k = c + 1
+                        continue
         if t[0] == 'ident' and t[1] in LOG_MACROS:
             j = next_sig(k + 1)
             if j < n and toks[j][1] == '!':
@@ -350,6 +374,19 @@ def splice_fn(src, item, ann):
         missing = [n for n in list(loops) + list(loopentry) + list(loopexit) if n > seen]
         if missing:
             raise ExtractError('lost anchor: %s::%s has %d loops, annotation for loop %s' % (src.rel, item.name, seen, missing))
+    for (nname, nret, nspec) in ann.get('nested') or []:
+        # a fn item nested in the body: name its return value and splice its contract before its body
+        m = re.search(r'\bfn\s+' + re.escape(nname) + r'\b', body)
+        if not m:
+            raise ExtractError('lost anchor: %s::%s: nested fn %r not found' % (src.rel, item.name, nname))
+        ob = body.find('{', m.end())
+        ar = body.find('->', m.end(), ob)
+        if ob < 0 or ar < 0:
+            raise ExtractError('lost anchor: %s::%s: nested fn %r has no `-> T {`' % (src.rel, item.name, nname))
+        rty = body[ar + 2:ob].strip()
+        edits.append((ob, '\n' + nspec.rstrip() + '\n'))
+        edits.append((ar + 2, ' (' + nret + ': ' + rty + ') /*'))
+        edits.append((ob - (len(body[ar + 2:ob]) - len(body[ar + 2:ob].rstrip())), '*/'))
     if ann.get('entry'):
         # proof text at the very start of the body: needs no statement anchor, so it survives any rewrite of the body
         assert body[0] == '{'
